@@ -25,7 +25,7 @@ BOUNDS = {
     'INITIAL_WINDOW_SIZE old/new': '0..2^31-1 (symbolic), ACK as a separate step',
     'streams': '2 open + 1 created around the ACK',
 }
-OUTSIDE = ['more than 3 streams']
+OUTSIDE = ['more than 3 streams (2 open + 1 created around the ACK, or 1 reserved)']
 ASSUMPTIONS = [
     'inductive pre-state: library window == advertised window (ghost), every integer '
     'content of the two window managers arbitrary',
@@ -282,6 +282,73 @@ def h_settings(client):
     return h
 
 
+def h_settings_reserved():
+    """a stream a client has been promised (reserved(remote), not open yet) has an inbound
+    window as well: the acknowledged INITIAL_WINDOW_SIZE change moves it like every other
+    stream, and that window is the one enforced once the pushed response arrives"""
+    def h():
+        with h2h.native():
+            c, s = h2h.pair()
+            c.send_headers(1, h2h.REQ, end_stream=True)
+            h2h.pump(c, s)
+            s.push_stream(1, 2, h2h.REQ)
+            h2h.pump(c, s)
+            me = c
+            me.max_inbound_frame_size = BIGFRAME
+        A = h2h.Adapter
+        from engine.core import assume_z
+        old = sym_int('old', 0, INT31, default=65535)
+        new = sym_int('new', 0, INT31, default=1000)
+        g2 = sym_int('s2_cur', -INT31 - 1, INT31, default=65535)
+        m2 = sym_int('s2_max', -INT31 - 1, INT31, default=65535)
+        assume_z(s_and(s_le(g2, m2), s_le(m2 - g2, INT31)))
+        A.set_wm(A.stream_wm(me, 2), g2, m2, 0)
+        A.set_wm(A.stream_wm(me, 1), 0, 0, 0)       # the parent cannot overflow
+        A.set_local_setting(me, SettingCodes.INITIAL_WINDOW_SIZE, old)
+        me.update_settings({SettingCodes.INITIAL_WINDOW_SIZE: new})
+        ack = hf.SettingsFrame(0)
+        ack.flags.add('ACK')
+        d = new - old
+        out = models.Out(me)
+        try:
+            h2h.deliver(me, [ack])
+        except h2.exceptions.ProtocolError as e:
+            note('overflow')
+            check(s_lt(INT31, g2 + d), 'ack-error-without-overflow', (g2, old, new))
+            return
+        note('applied')
+        check(s_not(s_lt(INT31, g2 + d)), 'ack-overflow-accepted', (g2, old, new))
+        wm = A.stream_wm(me, 2)
+        check(out.nbytes() == 0, 'reserved-stream-emits-on-ack', None)
+        check(wm.current_window_size == g2 + d, 'reserved-stream-window-not-moved',
+              (wm.current_window_size, g2 + d))
+        check(s_and(s_le(wm.current_window_size, wm.max_window_size),
+                    s_le(wm.max_window_size, INT31),
+                    s_le(wm.max_window_size - wm.current_window_size, INT31)),
+              'invariant-not-preserved:s2', None)
+        # the pushed response arrives: DATA is judged against the moved window
+        gc = A.conn_wm(me).current_window_size
+        hd = hf.HeadersFrame(2)
+        hd.flags.add('END_HEADERS')
+        with h2h.native():
+            hd.data = s.encoder.encode(h2h.RESP)
+        h2h.deliver(me, [hd])
+        data = sym_bytes('n', 0, BIGFRAME - 300, default=10)
+        f = hf.DataFrame(2)
+        f.data = data
+        fits = s_and(s_le(len(data), gc), s_le(len(data), g2 + d))
+        try:
+            h2h.deliver(me, [f])
+        except h2.exceptions.ProtocolError as e:
+            note('rejected')
+            check(s_not(fits), 'fitting-data-rejected', (len(data), gc, g2 + d))
+            check(e.error_code == ErrorCodes.FLOW_CONTROL_ERROR, 'overrun-code', None)
+        else:
+            note('accepted')
+            check(fits, 'overrun-accepted', (len(data), gc, g2 + d))
+    return h
+
+
 def h_new_stream_around_ack(client):
     """a stream created between update_settings and the ACK is advertised the OLD
     initial size and moves by the delta at the ACK; one created after starts at NEW"""
@@ -382,4 +449,6 @@ def shards(tier, seed):
                          expect=['acked']))
         out.append(Shard('data_on_closed_stream/%s' % r, h_data_closed_stream(client),
                          expect=['absorbed', 'rejected']))
+    out.append(Shard('settings_ack_reserved/client', h_settings_reserved(),
+                     expect=['applied', 'overflow', 'accepted', 'rejected']))
     return out
